@@ -471,7 +471,11 @@ func newStreamReaderWithConvert[T any](origin iStreamReader, convert func(any) (
 //	fmt.Println(s) // Output: val_1
 func StreamReaderWithConvert[T, D any](sr *StreamReader[T], convert func(T) (D, error)) *StreamReader[D] {
 	c := func(a any) (D, error) {
-		return convert(a.(T)) // nolint: byted_interface_check_golintx
+		var t T
+		if a != nil { // a nil item of an interface element type arrives as a nil any: it is the zero T
+			t = a.(T) // nolint: byted_interface_check_golintx
+		}
+		return convert(t)
 	}
 
 	return newStreamReaderWithConvert(sr, c)
